@@ -298,6 +298,64 @@ def o_c19(meta, ans, ctx):
     return None
 
 
+def o_c18(meta, ans, ctx):
+    k = meta.get('kind')
+    if k == 'case':
+        a = parse_case_answer(ans)
+        if a and a['S']['status'] == 'ok':
+            ctx.setdefault('c18_plain', {})[(meta['ti'], meta['val'])] = a['S']['hex']
+        return None
+    if k != 'schema':
+        return None
+    ps = casegen.parse_schema(ans)
+    if ps is None: return 'schema: serialize_with_schema failed (%s)' % ans[:40]
+    hx, rows, extra = ps
+    data = bytes.fromhex(hx)
+    n = len(data)
+    plain = ctx.get('c18_plain', {}).get((meta['ti'], meta['val']))
+    if plain is not None:
+        mp = ctx.get('model_ans', '').split(' ')
+        mask = mp[2] if len(mp) > 2 else ''
+        if len(plain) != len(hx) or any(mask[j:j + 2] != '..' and plain[j:j + 2] != hx[j:j + 2] for j in range(0, len(hx), 2)):
+            return 'same-bytes: the recording writer wrote different bytes than the plain writer'
+    if extra.get('csv', 'None') == 'None': return 'render-csv: to_csv panicked'
+    if extra.get('debug', 'None') == 'None': return 'render-debug: debug panicked'
+    # depth of each row; a padding row sits at the level of the zero-copy row that follows it
+    depth = []
+    for ri, r in enumerate(rows):
+        if r['field'] == 'PADDING':
+            if ri + 1 >= len(rows): return 'padding-last: a padding row is the last row'
+            depth.append(len(rows[ri + 1]['field'].split('.')))
+        else:
+            depth.append(len(r['field'].split('.')))
+    for r in rows:
+        if r['offset'] + r['size'] > n: return 'in-stream: row %s [%d,+%d) exceeds the stream of %d bytes' % (r['field'], r['offset'], r['size'], n)
+        if r['field'] == 'PADDING' and any(data[r['offset']:r['offset'] + r['size']]): return 'padding-zero: a padding row covers non-zero bytes'
+        if r['field'] != 'PADDING' and r['align'] > 1 and r['offset'] % r['align']: return 'zero-aligned: %s at %d, alignment %d' % (r['field'], r['offset'], r['align'])
+    # pre-order reconstruction with tiling
+    stack = [{'d': 0, 'off': 0, 'size': n, 'cur': 0, 'kids': 0, 'field': ''}]
+    def close(node):
+        if node['kids'] and node['cur'] != node['off'] + node['size']:
+            return 'tile-end: the children of %s end at %d, the row at %d' % (node['field'] or 'the stream', node['cur'], node['off'] + node['size'])
+        return None
+    for r, d in zip(rows, depth):
+        while stack[-1]['d'] >= d:
+            why = close(stack.pop())
+            if why: return why
+        parent = stack[-1]
+        if parent['d'] != d - 1: return 'preorder: row %s at depth %d follows depth %d' % (r['field'], d, parent['d'])
+        if r['field'] != 'PADDING' and parent['field'] and not r['field'].startswith(parent['field'] + '.'):
+            return 'preorder: row %s is not under %s' % (r['field'], parent['field'])
+        if r['offset'] != parent['cur']:
+            return 'tile-gap: row %s starts at %d, expected %d' % (r['field'], r['offset'], parent['cur'])
+        parent['cur'] += r['size']; parent['kids'] += 1
+        stack.append({'d': d, 'off': r['offset'], 'size': r['size'], 'cur': r['offset'], 'kids': 0, 'field': r['field']})
+    while stack:
+        why = close(stack.pop())
+        if why: return why
+    return None
+
+
 def _wfail_one(tok_res, tok_hex, k, total, ff, fault_free=None):
     if tok_res == 'panic': return 'panic: serialization panicked on a failing writer'
     if k is not None and k < total:
@@ -405,6 +463,7 @@ SPECS = {
     'C10': CaseSpec(o_c10, 'every single-bit flip of the 29 fixed header bytes (all 232 for a quarter of the types in the quick tier, a sample of 48 for the others), the reversed cookie, minor/major/usize boundary values; both modes.'),
     'C11': CaseSpec(o_c11, 'every cut point k in [0,len) of the streams of generated values (streams up to 400 bytes in the quick tier); both modes.'),
     'C12': CaseSpec(o_c12, 'every base residue 0..127 (all for half of the types with aligned blocks in the quick tier, 16 residues for the rest) x generated values; block list taken from the real schema.'),
+    'C18': CaseSpec(o_c18, 'serialize_with_schema of every generated value: bytes versus the plain writer, rows versus the model forest, pre-order / tiling / in-stream / zero padding / alignment invariants on the real rows, to_csv and debug under catch_unwind.'),
     'C13': CaseSpec(o_c13, 'failure at every position k in [0,len] (all k for a fifth of the types in the quick tier, boundary and sampled k for the rest) with random per-call caps and Interrupted patterns, splitting/retrying writers, flush failure, BufWriter over /dev/full; slice references and structures holding them with the allocator protecting the borrowed buffer.'),
     'C14': CaseSpec(o_c14, '10 fragmentation patterns (1-byte, prime-sized, mixed, pseudo-random, with Interrupted, through BufReader) and failure (error or end of file) at positions k in [0,len) for generated values.'),
     'C16': CaseSpec(o_c16, 'for 13+ element types (zero-copy and deep, built-in and derived): the vector, the slice reference, the SerIter wrapper and a generic structure holding each, on empty and generated sequences; lying iterators for all (announced, actual) pairs <= 6 and larger ones.'),
